@@ -4,7 +4,7 @@ import MpVerif.C01.PropsObjective
 # C01 — the reference converter is correct (property theorems only; round 5, audit item [HIGH])
 
 `convert : NLModel → Cfg → ConvOut` (ModelConvert.lean) maps an NL model of the fragment (linear algebraic rows, logical rows and a
-linear objective over nested abs / max / min / if-then-else / count / comparisons / and / or / not, bounded variables) to the flat model
+linear objective over nested abs / max / min / if-then-else / count / comparisons / and / or / not / iff, bounded variables) to the flat model
 (definitions in creation order with the expression map, bounds of `PreprocessConstraint`, contexts of `constr_prop_down.h`) and
 the delivered blocks.  The theorems below speak about **the NL model's own semantics** `NLModel.sat` (expression trees evaluated
 directly) on one side and the delivered model on the other; no hypothesis is a per-run check on the C++ output.
@@ -447,5 +447,22 @@ theorem C01_convert_example_narrowing_infragment :
 theorem C01_convert_example_narrowing_equiv (x : Asg) :
     exNL2.sat x ↔ ∃ y, DeliveredC (convert exNL2 { acc := .linear }) x y :=
   C01_convert_equiv exNL2 _ x C01_convert_example_narrowing_infragment.1
+
+/-! ## non-vacuity with an equivalence: `(x1 ≤ 2) ⟺ (x1 ≥ 0 ∨ x0 ≥ 1)` as a logical row and `¬((x1 ≥ 1) ⟺ (x1 ≤ -1))` as another,
+linear acceptance set (`<==>` is flattened as the comparison `a - b == 0` of the two result variables, reformulated by the
+conditional-equality gadget on the integer-typed body) -/
+
+def exNL3 : NLModel :=
+  ⟨3, exB0, some (.min, .v 1), [],
+   [.iff (.cmp .le (.v 1) (.c 2)) (.or (.cons (.cmp .ge (.v 1) (.c 0)) (.cons (.cmp .ge (.v 1) (.c 3)) .nil))),
+    .not (.iff (.cmp .ge (.v 1) (.c 1)) (.cmp .le (.v 1) (.c (-1))))]⟩
+
+theorem C01_convert_example_iff_infragment :
+    InFragment exNL3 { acc := .linear } ∧ InFragment exNL3 { acc := .native } ∧
+    (convert exNL3 { acc := .linear }).shortcut true = false := by decide +kernel
+
+theorem C01_convert_example_iff_equiv (x : Asg) :
+    exNL3.sat x ↔ ∃ y, DeliveredC (convert exNL3 { acc := .linear }) x y :=
+  C01_convert_equiv exNL3 _ x C01_convert_example_iff_infragment.1
 
 end MpVerif.C01
